@@ -16,9 +16,9 @@ import (
 var c07Dims = [][]string{
 	{"", "@@"},
 	{"", "important"},
-	{"", "domain=a.com", "domain=~a.com"},
+	{"", "domain=a.com", "domain=~a.com", "domain=a.com|b.com"}, // the number of listed domains is not a criterion
 	{"", "script", "script,image", "~script", "script,image,stylesheet,subdocument,object,xmlhttprequest,media,font,websocket,ping,other", "~other", "subdocument,~ping"},
-	{"", "third-party", "match-case", "~third-party", "match-case,~match-case", "third-party,~third-party"}, // the last two: one option switched on and off
+	{"", "third-party", "match-case", "~third-party", "match-case,~match-case"}, // the last one: an option switched on and off
 	{"", "dnstype=A", "dnstype=~A"},
 	{"", "ctag=x", "ctag=~x"},
 	{"", "client=1.1.1.1", "client=~1.1.1.1"},
